@@ -21,7 +21,7 @@ type fnSpec struct {
 	locals   bool   // define every free name of {x, y} as a local
 	write    string // "=", "+=", "++", "swap", "multi"
 	callee   int    // index (0-based) of an earlier function, -1 none
-	callForm string // "stmt", "value", "multi-def", "multi-assign", "nested", "return"
+	callForm string // "stmt", "value", "multi-def", "multi-assign", "nested", "stmt-nested", "return"
 }
 
 func (s fnSpec) String() string {
@@ -223,6 +223,13 @@ func c02Func(i int, s fnSpec, specs []fnSpec) Stmt {
 			}
 			t := fmt.Sprintf("t%d", i+1)
 			body = append(body, Define{Names: []string{t}, Form: DefShort, Vals: []Expr{Call{Fn: cname, Args: inner}}}, Print{Args: []Expr{StrLit{V: name + ":nested"}, Var{t}}})
+		case "stmt-nested":
+			// a call statement (its own result is dropped) whose arguments are calls: their values are needed
+			inner := make([]Expr, np)
+			for k := range inner {
+				inner[k] = Call{Fn: cname, Args: c02Args(np, all, 100*(i+1)+10*(k+1))}
+			}
+			body = append(body, ExprStmt{X: Call{Fn: cname, Args: inner}})
 		case "return":
 			ret = append(ret, call)
 		}
@@ -298,7 +305,7 @@ func c02Specs(idx int, prev []fnSpec, full bool) []fnSpec {
 					if cs.nret == 1 {
 						forms = append(forms, "value")
 						if len(cs.params) > 0 {
-							forms = append(forms, "nested")
+							forms = append(forms, "nested", "stmt-nested")
 						}
 						if nr >= 1 {
 							forms = append(forms, "return")
